@@ -240,7 +240,7 @@ fn run(name: &str, j: &J) -> Result<bool, String> {
                 "d + 1", "d - d", "encode(w, 'hex')", "decode(w, 'hex')", "hex(x)", "is_bool(b)", "nosuchfunction(x, y)", "x::float", "x::text::integer", "sin(z)", "cos(n)", "sin(n)", "sin(x)",
                 "exp(1000 * q)", "exp(exp(q * 100))", "ln(exp(-1000 * q))", "1 / exp(-1000*q)", "9223372036854775807 + x", "-9223372036854775808 - x", "9223372036854775807 * x",
                 "(-9223372036854775807 - 1) / -1", "1e308 * q", "1e308 * 1e308", "1e-320 / q", "pow(10, 400)", "pow(0, -1)", "sqrt(-1)", "ln(0)", "ln(-1)", "log(0)",
-                "nosuchcolumn", "t.nosuch", "sum(nosuch)", "exp()", "concat()", "round(0, 400)", "round(z, 400)", "round(q, -400)", "trunc(0, 400)", "trunc(y, -400)", "round(y, 9223372036854775807)", "greatest(x)", "coalesce()", "substr(w)", "regexp_replace(w)", "count()", "pow(x)", "round()", "ltrim()", "log()", "X'AB'",
+                "nosuchcolumn", "t.nosuch", "sum(nosuch)", "exp()", "concat()", "round(0, 400)", "round(z, 400)", "round(q, -400)", "trunc(0, 400)", "trunc(y, -400)", "round(y, 9223372036854775807)", "(1, 2)", "x IN (SELECT x FROM t)", "EXISTS (SELECT 1 FROM t)", "(SELECT 1)", "x = ANY(ARRAY[1, 2])", "x > ALL(ARRAY[1, 2])", "w LIKE 'a!%' ESCAPE '!'", "INTERVAL '1' DAY", "ARRAY[1, 2]", "x IS DISTINCT FROM n", "x IS NOT DISTINCT FROM n", "b IS UNKNOWN", "w COLLATE \"C\"", "d AT TIME ZONE 'UTC'", "TRIM(BOTH 'a' FROM w)", "overlay(w placing 'a' from 1)", "w SIMILAR TO 'a'", "x IN UNNEST(ARRAY[1, 2])", "w[1]", "TRY_CAST(w AS INTEGER)", "SAFE_CAST(w AS INTEGER)", "GROUPING SETS ((x))", "CUBE (x)", "ROLLUP (x)", "x -> 'a'", "greatest(x)", "coalesce()", "substr(w)", "regexp_replace(w)", "count()", "pow(x)", "round()", "ltrim()", "log()", "X'AB'",
             ];
             let one = |e: &str| -> Option<String> {
                 let queries = if name == "c18_query_case" { vec![e.to_string()] } else { vec![format!("SELECT {} AS r FROM t", e), format!("SELECT SUM(q) AS r FROM t WHERE ({}) IS NOT NULL", e), format!("SELECT SUM(q) AS sq FROM t GROUP BY {}", e)] };
@@ -273,6 +273,9 @@ fn run(name: &str, j: &J) -> Result<bool, String> {
                 "SELECT a.x FROM t AS a JOIN t AS b USING (zzz)", "SELECT a.x FROM t AS a LEFT JOIN t AS b ON zzz = 1", "SELECT t.* FROM t", "SELECT u.* FROM t", "SELECT x FROM t ORDER BY zzz", "SELECT x FROM t GROUP BY zzz",
                 "SELECT count(*) AS c FROM t HAVING zzz > 1", "SELECT x FROM nosuch", "SELECT x FROM t UNION SELECT w FROM t", "SELECT x FROM t UNION SELECT x, id FROM t", "SELECT x AS a, x AS a FROM t",
                 "SELECT x FROM t LIMIT 10 OFFSET 5", "SELECT a.x FROM t AS a NATURAL JOIN t AS b", "SELECT a.x FROM t AS a CROSS JOIN t AS b CROSS JOIN t AS c", "SELECT DISTINCT zzz FROM t", "SELECT count(DISTINCT zzz) AS c FROM t",
+                "SELECT 1", "SELECT 1 AS a", "SELECT a.x FROM t AS a, t AS b", "VALUES (1), (2)", "SELECT * FROM (VALUES (1), (2)) AS v", "SELECT x FROM t GROUP BY ALL", "SELECT a.x FROM t AS a LEFT SEMI JOIN t AS b ON a.id = b.id",
+                "SELECT a.x FROM t AS a JOIN t AS b", "(SELECT x FROM t UNION SELECT x FROM t) UNION SELECT x FROM t", "SELECT x FROM t UNION VALUES (1)", "SELECT * FROM UNNEST(ARRAY[1, 2]) AS u", "TABLE t", "WITH c AS (VALUES (1)) SELECT * FROM c",
+                "SELECT x FROM t WHERE x IN (SELECT x FROM t)", "SELECT s.x FROM (SELECT x FROM t) AS s JOIN LATERAL (SELECT 1) AS l ON true", "SELECT sum(y) + x AS r FROM t", "SELECT x FROM t WHERE EXISTS (SELECT 1 FROM t)",
             ];
             if name == "c18_sql_search" { for q in whole {
                 let (q2, relations2) = (q.to_string(), relations.clone());
